@@ -108,6 +108,6 @@ def obligations(tier, seed):
                 obs.append(qh.query_obl('C05', name, CASES[name], a2, b, timeout=1200, tag='+none', **kw))
             if 0 < len(a) < 3:
                 obs.append(qh.query_obl('C05', name, CASES[name], a + [a[0][:-1] if len(a[0]) > 1 else a[0]], b, timeout=1200, tag='+row', **kw))
-            if b is not None:
+            if b:
                 obs.append(qh.query_obl('C05', name, CASES[name], a, b + [b[0]], timeout=1200, tag='+brow', **kw))
     return obs
